@@ -76,7 +76,14 @@ pub fn run(tier: &str) -> Result<Report, String> {
     let ctx_nodes = if tier == "quick" { 2 } else { 3 };
     let ck = Checks { semantic: true, unit: true, entries: Entries::Ext2 };
     let mut n_contexts = 0;
-    for b in nets.iter().filter(|b| which.contains(&b.name.as_str())) {
+    // plus: multi-colour networks whose graph is additionally restricted to every second valid colour
+    // (SymbolicAsyncGraph::restrict) - shortcut results must stay inside the narrowed universe as well
+    let mut selected: Vec<Arc<crate::bridge::Bound>> = nets.iter().filter(|b| which.contains(&b.name.as_str())).cloned().collect();
+    for b in nets.iter().filter(|b| b.cols.len() >= 2 && (if tier == "quick" { ["imp1", "con2"].contains(&b.name.as_str()) } else { b.n <= 2 })) {
+        let keep: Vec<usize> = (0..b.cols.len()).step_by(2).collect();
+        selected.push(Arc::new(b.restrict_colours(&keep)));
+    }
+    for b in selected.iter() {
         sem::note_network(&mut rep, b);
         let fams = label_families(b, 4);
         for (desc, labels) in [fams[0].clone(), fams[3].clone()] {
@@ -178,7 +185,7 @@ pub fn run(tier: &str) -> Result<Report, String> {
         }
     }
     rep.set("one_hole_contexts", json!(n_contexts));
-    rep.rule = format!("every one-hole context with <= {ctx_nodes} nodes (all unary operators, & | => EU AU, bind/exists/forall with and without domains, jump) x the two shortcut patterns, their pattern-defeating twins and 16 near-miss families (other variable, domain on the binder, extra / fewer / swapped / other operators, other quantifier), on the core networks x 2 label families: shortcut vs twin must be the same set (BDD equality); the pattern occurring twice (inside a domain-restricted context and in any other context, both orders, joined by & / |; context sizes (domain, other) bounded by (3,2) in quick and on 3-variable networks, (4,2) and (3,3) in thorough on networks with <= 2 variables) vs the same with twins, and vs the oracle; and every formula must agree with the explicit-state oracle and stay inside the unit set; distinct_nontrivial = distinct non-trivial verdict tables");
+    rep.rule = format!("every one-hole context with <= {ctx_nodes} nodes (all unary operators, & | => EU AU, bind/exists/forall with and without domains, jump) x the two shortcut patterns, their pattern-defeating twins and 16 near-miss families (other variable, domain on the binder, extra / fewer / swapped / other operators, other quantifier), on the core networks (and on the multi-colour ones with the graph restricted to every second colour) x 2 label families: shortcut vs twin must be the same set (BDD equality); the pattern occurring twice (inside a domain-restricted context and in any other context, both orders, joined by & / |; context sizes (domain, other) bounded by (3,2) in quick and on 3-variable networks, (4,2) and (3,3) in thorough on networks with <= 2 variables) vs the same with twins, and vs the oracle; and every formula must agree with the explicit-state oracle and stay inside the unit set; distinct_nontrivial = distinct non-trivial verdict tables");
     Ok(rep)
 }
 
